@@ -193,8 +193,9 @@ Fixpoint stream (cap : nat) (lx : lexer) (sc : Z) (l : lstate) : list (list Z) :
 
 Definition run_lexer (lx : lexer) (sc : Z) (src : list Z) (bom : bool) : list (list Z) :=
   let l0 := init lx src in
-  let l0 := match bom, src with
-            | true, 239 :: 187 :: 191 :: _ => rewind lx l0 3
-            | _, _ => l0
+  let l0 := match src with
+            | b0 :: b1 :: b2 :: _ =>
+                if bom && (b0 =? 239) && (b1 =? 187) && (b2 =? 191) then rewind lx l0 3 else l0
+            | _ => l0
             end in
   stream 300 lx sc l0.
